@@ -3,6 +3,7 @@
   Abstract state: `absM st` = the active mapper (if any).
 -/
 import LLTD.Lemmas.Obs
+import LLTD.Lemmas.Mapper
 
 namespace LLTD.C05
 open LLTD LLTD.Spec
@@ -116,5 +117,110 @@ theorem persist_other (c : Cfg) (g : Glob) (w : World) (st : St) (img : List Nat
 example : absM (parseFrameSt {} {} {} { known := true, mapperReal := [2, 0, 0, 0, 0, 0x11] }
     ([255,255,255,255,255,255, 2,0,0,0,0,0x12, 0x88,0xd9, 1, 2, 0, 0] ++ List.replicate 558 0)).st = some [2, 0, 0, 0, 0, 0x11] := by
   rw [foreign _ _ _ _ _ (by decide)]; rfl
+
+end LLTD.C05
+
+
+/-! ## The history form: reply-or-silence of every Discover is a function of (last Reset, first accepted session
+    opener since) — the property predicate `holdsC05` holds of the model's trace for EVERY frame history -/
+
+namespace LLTD.C05
+open LLTD LLTD.Spec
+
+/-- the observable trace of one interface over a history of buffer images -/
+def runObs (c : Cfg) (g : Glob) : World → St → List (List Nat) → List RxObs
+  | _, _, [] => []
+  | w, st, img :: rest =>
+    obsOf c g img (parseFrameSt c g w st img).fx :: runObs c g (parseFrameSt c g w st img).w (parseFrameSt c g w st img).st rest
+
+/-- an accepted Discover produces exactly one transmit and it decodes as a Hello -/
+theorem accepted_one_hello (c : Cfg) (g : Glob) (w : World) (st : St) (img : List Nat) (hc : CfgOk c) (hd : isDiscover img = true)
+    (hacc : mapperMatches st (LLTD.fRealSrc img) = true) (hw : NoFault w) :
+    (sends (obsOf c g img (parseFrameSt c g w st img).fx).fx).length = 1 ∧
+    (helloReplies (obsOf c g img (parseFrameSt c g w st img).fx).fx).length = 1 := by
+  obtain ⟨hl, htos, hop⟩ := (isDiscover_iff img).mp hd
+  have hm := malloc_nf w c.mtuEff hw
+  have h1 : (LLTD.fRealSrc img).length = 6 := slice_length _ _ _ (by simp; omega)
+  have h2 : (LLTD.fEthSrc img).length = 6 := slice_length _ _ _ (by simp; omega)
+  have hfx := (answerHello_fx c g w (preStep st img) img hc hl hm).1
+  rw [helloGen_preStep] at hfx
+  have hsends : sends (obsOf c g img (parseFrameSt c g w st img).fx).fx =
+      [helloFrame c g (LLTD.fDiscGen img) (LLTD.fTos img) (LLTD.fRealSrc img) (LLTD.fEthSrc img)] := by
+    rw [parseFrameSt_discover c g w st img htos hop, if_pos hacc]
+    unfold obsOf
+    split
+    · simp only [hfx]; rfl
+    · simp only [hfx]; rfl
+  unfold helloReplies
+  rw [hsends]
+  simp [decodeHello_helloFrame c g _ _ _ _ hc h1 h2]
+
+theorem refused_no_send (c : Cfg) (g : Glob) (w : World) (st : St) (img : List Nat) (hd : isDiscover img = true)
+    (hrej : mapperMatches st (LLTD.fRealSrc img) = false) :
+    sends (obsOf c g img (parseFrameSt c g w st img).fx).fx = [] := by
+  obtain ⟨_, htos, hop⟩ := (isDiscover_iff img).mp hd
+  rw [parseFrameSt_discover c g w st img htos hop]
+  simp [hrej, obsOf, sends]
+
+/-- one step of the predicate on the model's own reaction -/
+theorem step_holds (c : Cfg) (g : Glob) (w : World) (st : St) (img : List Nat) (s : SpecSt) (hc : CfgOk c) (hw : NoFault w)
+    (hr : Rel st s.mapper) : holdsC05Rx s (obsOf c g img (parseFrameSt c g w st img).fx) = true := by
+  unfold holdsC05Rx
+  have hfr : (obsOf c g img (parseFrameSt c g w st img).fx).frame = img := rfl
+  rw [hfr]
+  by_cases hd : isDiscover img = true
+  · simp only [hd, Bool.not_true, Bool.false_eq_true, if_false]
+    rcases hr with h | h
+    · rw [h]
+    · rw [h]
+      unfold absS
+      by_cases hk : st.known = true
+      · simp only [hk, if_true]
+        by_cases hq : (Spec.fRealSrc img == st.mapperReal) = true
+        · have hacc : mapperMatches st (LLTD.fRealSrc img) = true := by
+            unfold mapperMatches; rw [spec_fRealSrc] at hq; simp [hk, eq_of_beq hq]
+          have := accepted_one_hello c g w st img hc hd hacc hw
+          simp [hq, this.1, this.2]
+        · have hrej : mapperMatches st (LLTD.fRealSrc img) = false := by
+            unfold mapperMatches
+            rw [spec_fRealSrc] at hq
+            simp only [hk, Bool.not_true, Bool.false_or]
+            cases hqq : (st.mapperReal == LLTD.fRealSrc img) with
+            | false => rfl
+            | true => exact absurd (by rw [eq_of_beq hqq]; exact beq_self_eq_true _) hq
+          simp [hq, refused_no_send c g w st img hd hrej]
+      · have hacc : mapperMatches st (LLTD.fRealSrc img) = true := by unfold mapperMatches; simp [hk]
+        have := accepted_one_hello c g w st img hc hd hacc hw
+        simp [hk, this.1, this.2]
+  · simp only [hd, Bool.not_false, if_true]
+    by_cases hf : (decide (img.length ≥ 32) && decide (Spec.fTos img ≥ 2)) = true
+    · simp only [hf, if_true]
+      simp only [Bool.and_eq_true, decide_eq_true_eq] at hf
+      have : 2 ≤ LLTD.fTos img := by rw [← spec_fTos]; exact hf.2
+      rw [foreign c g w st img this]
+      rfl
+    · simp only [hf]; rfl
+
+/-- THE HISTORY THEOREM -/
+theorem history (c : Cfg) (g : Glob) (own : List Nat) (hc : CfgOk c) (hm : c.failMtu = false) (imgs : List (List Nat))
+    (himgs : ∀ img ∈ imgs, ImgOk img) (w : World) (st : St) (s : SpecSt) (hw : NoFault w) (hr : Rel st s.mapper) :
+    (specStatesDom own 300 s (runObs c g w st imgs)).all (fun p => holdsC05Rx p.1 p.2) = true := by
+  induction imgs generalizing w st s with
+  | nil => rfl
+  | cons img rest ih =>
+    have him := himgs img (by simp)
+    simp only [runObs, specStatesDom, List.all_cons, Bool.and_eq_true]
+    refine ⟨step_holds c g w st img s hc hw hr, ?_⟩
+    apply ih (fun i hi => himgs i (by simp [hi]))
+    · exact nf_of_sched hw (parseFrameSt_sched c g w st img)
+    · have hfr : (obsOf c g img (parseFrameSt c g w st img).fx).frame = img := rfl
+      rw [hfr, spec_mapper own 300 _ s img _ him.len]
+      exact rel_step c g w st img s.mapper hc hm hr
+
+/-- from a freshly started responder: `holdsC05` of the whole trace -/
+theorem history_fresh (c : Cfg) (g : Glob) (hc : CfgOk c) (hm : c.failMtu = false) (imgs : List (List Nat))
+    (himgs : ∀ img ∈ imgs, ImgOk img) (w : World) (hw : NoFault w) :
+    holdsC05 c.mac (runObs c g w {} imgs) = true :=
+  history c g c.mac hc hm imgs himgs w {} {} hw (rel_abs _ _ rfl)
 
 end LLTD.C05
